@@ -285,48 +285,53 @@ func CheckStateResponse(
 		return nil, nil, fmt.Errorf("expected %d errors but got %d", len(allEvents), len(errors))
 	}
 
-	// Work out which events failed the signature checks.
-	failures := map[string]error{}
+	// Work out which events failed the signature checks. Failures are recorded per event and
+	// not per event ID: a response can contain two events with the same ID (the same event once
+	// more with another signature, for instance), and a bad one must not take a good one with it.
+	failed := make([]bool, len(allEvents))
 	for i, e := range allEvents {
 		if errors[i] != nil {
 			logrus.WithError(errors[i]).Warnf("Signature validation failed for event %q", e.EventID())
-			failures[e.EventID()] = errors[i]
+			failed[i] = true
 		}
 	}
 
 	// Collect a map of event reference to event.
 	eventsByID := map[string]PDU{}
 	for i := range allEvents {
-		if _, ok := failures[allEvents[i].EventID()]; !ok {
+		if !failed[i] {
 			eventsByID[allEvents[i].EventID()] = allEvents[i]
 		}
 	}
 
 	// Check whether the events are allowed by the auth rules.
-	for _, event := range allEvents {
+	for i, event := range allEvents {
 		if err := checkAllowedByAuthEvents(event, eventsByID, missingAuth, userIDForSender); err != nil {
 			logrus.WithError(err).Warnf("Event %q is not allowed by its auth events", event.EventID())
-			failures[event.EventID()] = err
+			failed[i] = true
 		}
 	}
 
 	// For all of the events that weren't verified, remove them
 	// from the RespState. This way they won't be passed onwards.
-	if f := len(failures); f > 0 {
-		logger.Warnf("Discarding %d auth/state event(s) due to invalid signatures", f)
-
-		for i := 0; i < len(authEvents); i++ {
-			if _, ok := failures[authEvents[i].EventID()]; ok {
-				authEvents = append(authEvents[:i], authEvents[i+1:]...)
-				i--
+	// (allEvents is authEvents followed by stateEvents.)
+	discarded := 0
+	keep := func(events []PDU, offset int) []PDU {
+		kept := events[:0]
+		for i := range events {
+			if failed[offset+i] {
+				discarded++
+				continue
 			}
+			kept = append(kept, events[i])
 		}
-		for i := 0; i < len(stateEvents); i++ {
-			if _, ok := failures[stateEvents[i].EventID()]; ok {
-				stateEvents = append(stateEvents[:i], stateEvents[i+1:]...)
-				i--
-			}
-		}
+		return kept
+	}
+	numAuthEvents := len(authEvents)
+	authEvents = keep(authEvents, 0)
+	stateEvents = keep(stateEvents, numAuthEvents)
+	if discarded > 0 {
+		logger.Warnf("Discarding %d auth/state event(s) due to invalid signatures", discarded)
 	}
 
 	return authEvents, stateEvents, nil
